@@ -101,7 +101,7 @@ func grpcRead(r io.Reader) ([]byte, error) {
 }
 
 func twirpRead(r io.Reader) ([]byte, error) {
-	if data, err := io.ReadAll(io.LimitReader(r, maxSize)); err != nil {
+	if data, err := io.ReadAll(io.LimitReader(r, maxSize+1)); err != nil {
 		return nil, err
 	} else if len(data) > maxSize {
 		return nil, errs.New("message too large")
